@@ -334,7 +334,7 @@ func runC18(x *core.Ctx) {
 	// magic values: the authentication method (and client id) set to every
 	// token-like string constant found in the tree under test
 	if x.Mine() {
-		for _, tok := range append([]string{"PLAIN", "SCRAM-SHA-1", "none"}, Mined.Strings...) {
+		for _, tok := range append(append([]string{"PLAIN", "SCRAM-SHA-1", "none", "%u", "%c", "%p", "%s", "%v", "${username}", "${password}", "{user}", "$USER", "{{.Username}}"}, Mined.NovelRaw...), Mined.Strings...) {
 			for _, n := range []int{3, 9} {
 				tok, n := tok, n
 				x.Eval("mined-strings")
@@ -542,9 +542,25 @@ func c18Compare(path []int, a []string, mask int) *core.Finding {
 // c18Token: CONNECT with the auth method / client id / protocol name set to
 // tok, with and without auth data, credentials of n bytes in two contents.
 func c18Token(tok string, n int) *core.Finding {
+	// slots: 0 auth method, 1 client id, 2 both, 3 will topic (will attached
+	// after the credentials were set), 4 will topic (will attached before),
+	// 5 will response topic and content type (after), 6 user property value
+	const slots = 7
 	render := func(slot, variant int, withData bool) string {
 		resetGlobals()
 		c := mq.NewConnect()
+		creds := func() {
+			c.SetUsername(credVariant(n, variant))
+			c.SetPassword([]byte(credVariant(n, 1-variant)))
+		}
+		will := func(topic, resp, ct string) {
+			w := mq.Pub(1, topic, "will payload")
+			if resp != "" {
+				w.SetResponseTopic(resp)
+				w.SetContentType(ct)
+			}
+			c.SetWill(w)
+		}
 		switch slot {
 		case 0:
 			c.SetAuthMethod(tok)
@@ -553,12 +569,23 @@ func c18Token(tok string, n int) *core.Finding {
 		case 2:
 			c.SetAuthMethod(tok)
 			c.SetClientID(tok)
+		case 4:
+			c.SetClientID("cid")
+			will("w/"+tok+"/x", "", "")
+		case 6:
+			c.AddUserProp("k", tok, tok, "v")
 		}
 		if withData {
 			c.SetAuthData([]byte("d"))
 		}
-		c.SetUsername(credVariant(n, variant))
-		c.SetPassword([]byte(credVariant(n, 1-variant)))
+		creds()
+		switch slot {
+		case 3:
+			c.SetClientID("cid")
+			will("w/"+tok+"/x", "", "")
+		case 5:
+			will("w", tok, tok)
+		}
 		var dump bytes.Buffer
 		var s string
 		if res := guarded(0, func() { mq.Dump(&dump, c); s = c.String() }); res.Panic != "" {
@@ -566,12 +593,12 @@ func c18Token(tok string, n int) *core.Finding {
 		}
 		return dump.String() + "\x00" + s
 	}
-	for slot := 0; slot < 3; slot++ {
+	for slot := 0; slot < slots; slot++ {
 		for _, wd := range []bool{false, true} {
 			a, b := render(slot, 0, wd), render(slot, 1, wd)
 			if a != b && a != "panic" && b != "panic" {
 				return &core.Finding{Class: "depends-on-credentials/magic-value",
-					Detail: fmt.Sprintf("CONNECT with %q as auth method/client id (slot %d, auth data %v), credentials of %d bytes: output differs with their content: %q vs %q", tok, slot, wd, n, clip(firstDiff(a, b), 120), clip(firstDiff(b, a), 120))}
+					Detail: fmt.Sprintf("CONNECT with %q in another field (slot %d: 0 auth method, 1 client id, 2 both, 3/4 will topic with the will attached after/before the credentials, 5 will response topic and content type, 6 user property; auth data %v), credentials of %d bytes: output differs with their content: %q vs %q", tok, slot, wd, n, clip(firstDiff(a, b), 120), clip(firstDiff(b, a), 120))}
 			}
 		}
 	}
